@@ -421,6 +421,45 @@ func runPoolOps(cfg poolCfg, ops []poolOp) (tr poolTrace) {
 				srv.mu.Unlock()
 				ev("reset-peer %d (conn %d)", op.W, cid)
 			}
+		case "pool-do", "pool-ping":
+			// the pool's own Do / Ping (acquire, run, release inside the pool)
+			qn++
+			qid := fmt.Sprintf("p%d-%s", qn, op.Kind)
+			started := time.Now()
+			runIt := func() error {
+				dctx, cancel := context.WithTimeout(ctx, 3*time.Second)
+				defer cancel()
+				if op.Op == "pool-ping" {
+					return pool.Ping(dctx)
+				}
+				return pool.Do(dctx, ch.Query{Body: "SELECT 1", QueryID: qid})
+			}
+			after := func() {
+				// a connection that was past its lifetime when the pool released it must not serve again
+				srv.mu.Lock()
+				if cid, ok := srv.lastConn[qid]; ok {
+					if born, seen := bornAt[cid]; !seen {
+						bornAt[cid] = started
+					} else if time.Since(born) > time.Duration(cfg.LifeMs)*time.Millisecond+15*time.Millisecond {
+						srv.conns[cid].retired = true
+					}
+				}
+				srv.mu.Unlock()
+			}
+			if op.Kind == "slow" {
+				wg.Add(1)
+				go func() {
+					defer wg.Done()
+					_ = runIt()
+					after()
+				}()
+				time.Sleep(5 * time.Millisecond)
+				ev("%s slow started", op.Op)
+				continue
+			}
+			err := runIt()
+			after()
+			ev("%s %s -> err=%v", op.Op, op.Kind, err != nil)
 		case "finish-slow":
 			srv.mu.Lock()
 			for _, sig := range srv.slow {
@@ -771,6 +810,45 @@ func runC11(c *Ctx) {
 				}
 				R.Violate(Violation{Kind: "oracle", Key: key, What: pr, Case: cs})
 				break
+			}
+		}
+	}
+	// the pool's own Do / Ping: a connection that failed under Pool.Do, or that outlived its lifetime while Pool.Do held it,
+	// is destroyed when the pool releases it — the next user gets another one
+	for i, ops := range [][]poolOp{
+		{{Op: "pool-do", Kind: "ok"}, {Op: "pool-do", Kind: "cut"}, {Op: "acquire", W: 0}, {Op: "do", W: 0, Kind: "ok"}, {Op: "release", W: 0}, {Op: "pool-do", Kind: "ok"}, {Op: "pool-ping"}, {Op: "close"}},
+		{{Op: "pool-ping"}, {Op: "pool-do", Kind: "cut"}, {Op: "pool-ping"}, {Op: "pool-do", Kind: "ok"}, {Op: "close"}},
+		{{Op: "pool-do", Kind: "ok"}, {Op: "pool-do", Kind: "slow"}, {Op: "sleep", Ms: 80}, {Op: "finish-slow"}, {Op: "pool-do", Kind: "ok"}, {Op: "pool-ping"}, {Op: "close"}},
+	} {
+		for _, mc := range []int{1, 2} {
+			cfg := poolCfg{MaxConns: mc, LifeMs: 60000, IdleMs: 60000, HealthMs: 60000}
+			if i == 2 {
+				cfg.LifeMs = 40
+			}
+			tr := runPoolOpsIsolated(cfg, ops)
+			R.Case(fmt.Sprintf("pool-do|%d|%d", i, mc), true)
+			R.Count("sequence:directed")
+			cs := map[string]any{"config": cfg, "ops": ops, "events": tr.events}
+			if tr.panicked != "" {
+				R.Violate(Violation{Kind: "oracle", Key: "pool-panic", What: "the operation sequence made the pool panic: " + tr.panicked, Case: cs})
+			}
+			for _, pr := range tr.problems {
+				key := "pool-problem"
+				switch {
+				case strings.Contains(pr, "handed out by Acquire is dead") || strings.Contains(pr, "after it had been released dead or expired"):
+					key = "dead-connection-reissued"
+				case strings.Contains(pr, "still open"):
+					key = "connections-left-open"
+				}
+				R.Violate(Violation{Kind: "oracle", Key: key, What: pr, Case: cs})
+				break
+			}
+			// the calls after the failed one must have worked (on a fresh connection)
+			for k, e := range tr.events {
+				if k > 0 && (strings.HasPrefix(e, "pool-do ok") || strings.HasPrefix(e, "pool-ping")) && strings.HasSuffix(e, "err=true") {
+					R.Violate(Violation{Kind: "oracle", Key: "dead-connection-reissued", What: "a Pool.Do / Pool.Ping after a failed or expired one failed: " + e, Case: cs})
+					break
+				}
 			}
 		}
 	}
